@@ -995,9 +995,11 @@ pub fn run(args: &Args) -> i32 {
     }
     ctx.stats.sample(json!({"id": 5, "what": space.case(5).1}));
     ctx.stats.sample(json!({"id": space.total - 1, "what": space.case(space.total - 1).1}));
-    ctx.distinct_counted = ctx.stats.evals;
-    ctx.stats.states = ctx.stats.evals;
-    ctx.stats.transitions = ctx.stats.evals;
-    ctx.stats.traces = ctx.stats.evals;
+    // cases that killed or hung their worker were executed too (their verdict is the death itself)
+    let executed = ctx.stats.evals + died;
+    ctx.distinct_counted = executed;
+    ctx.stats.states = executed;
+    ctx.stats.transitions = executed;
+    ctx.stats.traces = executed;
     ctx.finish()
 }
